@@ -193,6 +193,26 @@ func tableWriters(c *core.Ctx) []Writer {
 				out = append(out, Writer{Kind: "raw", Origin: "sql:" + name, Pos: f.Origin, Opaque: "statement of SQL function not parsed: " + o})
 			}
 		}
+		// one-shot data statements of migrations added after the tree the rules were confirmed on:
+		// the existing migrations are history (they ran, or will run, on data the current code no
+		// longer produces), a new one rewrites the data the properties are about
+		if BaselineMigrations != nil {
+			nNew := 0
+			for _, dw := range cat.DataWrites {
+				mig := migrationName(dw.File)
+				if mig == "" || BaselineMigrations[mig] {
+					continue
+				}
+				nNew++
+				origin := "sql:migration:" + mig
+				if dw.Stmt == nil {
+					out = append(out, Writer{Kind: "raw", Origin: origin, Pos: dw.Origin, Opaque: fmt.Sprintf("data statement of a new migration not parsed: %v", dw.Err)})
+					continue
+				}
+				out = append(out, sqlWriters(dw.Stmt, origin, dw.Origin)...)
+			}
+			c.Stats["new_migration_data_statements"] = nNew
+		}
 		sort.SliceStable(out, func(i, j int) bool {
 			if out[i].Table != out[j].Table {
 				return out[i].Table < out[j].Table
@@ -288,4 +308,21 @@ func execAllowedByCallers(c *core.Ctx, f *types.Func, depth int) bool {
 		}
 	}
 	return n > 0
+}
+
+// BaselineMigrations: the migrations of the tree the rules were confirmed on (from
+// /verif/anchors.json; nil when the file is absent). Set by NormaliseRenames.
+var BaselineMigrations map[string]bool
+
+// migrationName extracts "<n>-<name>" from a path or origin under …/migrations/.
+func migrationName(origin string) string {
+	i := strings.Index(origin, "migrations/")
+	if i < 0 {
+		return ""
+	}
+	rest := origin[i+len("migrations/"):]
+	if j := strings.IndexByte(rest, '/'); j >= 0 {
+		return rest[:j]
+	}
+	return ""
 }
